@@ -547,7 +547,7 @@ func Histogram(count, dividers, x, weights []float64) []float64 {
 				continue
 			}
 			// Find the next divider where v is less than the divider.
-			for j := idx + 1; j < len(dividers); j++ {
+			for j := idx + 1; j < len(count); j++ {
 				if v < dividers[j+1] {
 					idx = j
 					comp = dividers[j+1]
